@@ -44,6 +44,7 @@ func tableStores(fn *ssa.Function) []vstore {
 		}
 		rows := map[int64]map[int]*ssa.Store{}
 		var slices []*ssa.Slice
+		var copies []*ssa.UnOp
 		clean := true
 		for _, r := range refs(arr) {
 			switch x := r.(type) {
@@ -76,18 +77,56 @@ func tableStores(fn *ssa.Function) []vstore {
 				}
 			case *ssa.Slice:
 				slices = append(slices, x)
+			case *ssa.UnOp:
+				// `for _, p := range [...]T{...}`: the array value is loaded once and indexed by the loop
+				if x.Op == token.MUL && x.X == ssa.Value(arr) {
+					copies = append(copies, x)
+				} else {
+					clean = false
+				}
 			default:
 				clean = false
 			}
 		}
-		if !clean || len(rows) == 0 || len(slices) != 1 {
+		if !clean || len(rows) == 0 || len(slices)+len(copies) != 1 {
 			return
 		}
 		// element cells of the walking loop
 		fieldLoads := map[int][]ssa.Value{}
 		okShape := true
 		var cells []ssa.Value
-		for _, r := range refs(slices[0]) {
+		var walk []ssa.Instruction
+		if len(slices) == 1 {
+			walk = refs(slices[0])
+		} else {
+			for _, r := range refs(copies[0]) {
+				ix, isIx := r.(*ssa.Index)
+				if !isIx {
+					okShape = false
+					continue
+				}
+				if _, isK := constInt(ix.Index); isK {
+					okShape = false
+				}
+				for _, u := range refs(ix) {
+					switch y := u.(type) {
+					case *ssa.Field:
+						fieldLoads[y.Field] = append(fieldLoads[y.Field], y)
+					case *ssa.Store:
+						// the range variable: `pct := table[i]` into a local cell
+						local, isLocal := y.Addr.(*ssa.Alloc)
+						if !isLocal || y.Val != ssa.Value(ix) || local.Heap {
+							okShape = false
+							continue
+						}
+						cells = append(cells, local)
+					default:
+						okShape = false
+					}
+				}
+			}
+		}
+		for _, r := range walk {
 			switch x := r.(type) {
 			case *ssa.IndexAddr:
 				if _, isK := constInt(x.Index); isK {
@@ -132,7 +171,9 @@ func tableStores(fn *ssa.Function) []vstore {
 					}
 				case *ssa.Store:
 					if x.Addr == cells[n] {
-						if _, isCopy := x.Val.(*ssa.UnOp); !isCopy {
+						_, isCopy := x.Val.(*ssa.UnOp)
+						_, isElem := x.Val.(*ssa.Index)
+						if !isCopy && !isElem {
 							okShape = false
 						}
 					}
